@@ -57,7 +57,9 @@ def main():
         # an exception raised INSIDE the library under test on an input the specification allows is a verdict about
         # the library (it crashed where the property promises a result), not a failure of the machinery
         tb = traceback.extract_tb(exc.__traceback__)
-        inner = tb[-1] if tb else None
+        # innermost frame that is neither third-party (jax / numpy internals the library called into) nor the interpreter
+        own = [f for f in tb if "/site-packages/" not in f.filename and not f.filename.startswith("<")]
+        inner = own[-1] if own else None
         if inner is not None and "/probdiffeq/" in inner.filename.replace("\\", "/") and "/verif/" not in inner.filename:
             from harness.report import Report
 
